@@ -160,6 +160,8 @@ def run(ctx):
     obligations = [("InvQQ", "ok"), ("InvWitness", "ok"), ("InvQForm", "ok"), ("InvQTight", "ok"), ("InvQLive", "ok")]
     if forms.get("verifyHeader") == "N-6N/7":
         obligations.append(("InvHdrWouldIntersect", "violation"))  # documents the finding: expected counterexample
+    elif forms.get("verifyHeader") == "max(N-6N/7,C+1)":
+        obligations.append(("InvHdrWitnessWouldIntersect", "violation"))  # a witness threshold (C+1) is not a quorum
     res = {}
 
     def apa(inv):
